@@ -218,7 +218,8 @@ def stepDloop (p : PState) (toks : List String) : PState × String :=
   | ["cwant", add, remove] => go (.clientWant (decList add) (decList remove))
   | ["cflush"] => go .clientFlush
   | ["crecv", nack] => go (.clientRecv (decNack nack))
-  | ["srecv", n, gen] => go (.serverRecv (dec n) (decList gen))
+  | ["srecv", n, gen] => go (.serverRecv (dec n) (decList gen) true)
+  | ["srecv", n, gen, deliver] => go (.serverRecv (dec n) (decList gen) (tokBool deliver))
   | ["spush", n, ok, gen] => go (.serverPush (dec n) (tokBool ok) (decList gen))
   | _ => (p, "bad-op")
 
